@@ -562,6 +562,23 @@ func propC06(c *Ctx) {
 				c.fail(Failure{Kind: "oracle", Op: op, Impl: impl, Note: "an operator must return exactly one of a result or an error"})
 				continue
 			}
+			// the result is the caller's own: writing into it changes nothing the operator returns next time
+			again := safeCall(func() string {
+				un := func() (*variants.Variant, error) {
+					if nm == "not" {
+						return mgrOf("u").Not(a)
+					}
+					return mgrOf("u").Negative(a)
+				}
+				if r, err := un(); err == nil && r != nil && r != a {
+					r.SetAsString("\u00a7written-by-the-caller")
+				}
+				return outcome(un())
+			})
+			if again != impl {
+				c.fail(Failure{Kind: "oracle", Op: op, Impl: again, Spec: impl, Note: "after the caller wrote to the first result, the same operation returns " + again + " instead of " + impl + ": results share an object"})
+				continue
+			}
 			c.model(op, impl, "model-host")
 		}
 	}
